@@ -348,6 +348,35 @@ def rule_replay_window(cx):
                  "it are left out of the recovered state although they are unflushed -> later transactions without earlier ones" % o)
 
 
+def rule_one_memtable_per_segment(cx):
+    """Recovery flushes every replayed memtable but the last with `log_number = its segment + 1`.  That is only right if a
+    memtable tagged with segment N holds ALL of segment N that is not in tables yet.  A memtable handed out while the
+    segment is still being read (e.g. because it does not fit the arena) holds a prefix: flushing it marks the whole segment
+    as flushed while the rest lives in memory only and the writer keeps appending to the same segment -- after the next
+    crash that segment is skipped.  Decided in replay_wal: no push onto the result vector lies on a cycle through
+    Reader::read() that does not pass the segment iterator."""
+    f = cx.f
+    b = f.body("wal::recovery::replay_wal")
+    rd = [c for c in b.calls if c.bb in b.live and c.names & {"wal::reader::Reader::read", "Reader::read"} and b.in_cycle(c.bb)]
+    cx.floor("record loop in replay_wal", len(rd), 1)
+    # the segment loop's iterator: the `next` in a cycle whose receiver is not the record reader (a range / slice iterator)
+    seg_next = [c for c in b.calls if c.bb in b.live and c.primary.split("::")[-1] == "next" and b.in_cycle(c.bb) and "Reader" not in c.primary
+                and ("range" in c.primary.lower() or "Iter" in c.primary)]
+    cx.floor("segment loop in replay_wal", len(seg_next), 1)
+    pushes = [c for c in b.calls if c.bb in b.live and c.primary.endswith("Vec::push") and "MemTable" in b.local_ty(c.args[0][1][0]) if c.args and c.args[0][0] in ("c", "m")]
+    pushes = [c for c in pushes if "MemTable" in (b.local_ty(c.args[1][1][0]) if len(c.args) > 1 and c.args[1][0] in ("c", "m") else "MemTable")]
+    cx.floor("result pushes in replay_wal", len(pushes), 1)
+    heads = {c.bb for c in seg_next}
+    for c in pushes:
+        fw = b.reachable_from(list(b.succ[rd[0].bb]), avoid=heads)
+        back = b.reachable_from(list(b.succ[c.bb]), avoid=heads)
+        partial = c.bb in fw and rd[0].bb in back
+        cx.check(not partial, "a replayed memtable is handed out only when its segment has been read to the end", "partial-segment-memtable", c.where(),
+                 "replay_wal hands out a memtable while its segment is still being read (the segment did not fit the arena): the caller flushes it with "
+                 "log_number = segment + 1 although the rest of the segment exists only in the next memtable and in the WAL; the writer then appends to the same "
+                 "segment and the next recovery skips it -- acknowledged commits are lost")
+
+
 def rule_rotation_seals_segment(cx):
     """Recovery repairs a damaged segment and then replays the segments after it; that is prefix-consistent only if a
     non-final segment can never be torn by a crash, i.e. rotation makes the outgoing segment durable (flush + fsync)
